@@ -292,6 +292,38 @@ pub fn run(thorough: bool) -> Vec<Part> {
         |blk| format!("http:// URI block {}", blk),
     );
     t4.record(&mut part, "absolute-uris");
+    // token-level URIs: sequences of up to 5 (thorough 6) tokens, reaching shapes such as
+    // http://http://a/b that the character-level bound does not
+    let toks: Vec<&str> = vec!["http://", "http:/", "http:", "/", "//", "a", ":", "\u{e9}", ".", "HTTP://", "b/c"];
+    let tk = toks.len() as u64;
+    let maxt = if thorough { 6u32 } else { 5 };
+    let toks2 = toks.clone();
+    let t5 = par_enum(
+        tk * tk,
+        workers(),
+        600,
+        move |blk, t| {
+            let mut buf = String::new();
+            for len in 0..=(maxt - 2) {
+                for i in 0..tk.pow(len) {
+                    buf.clear();
+                    buf.push_str(toks2[(blk % tk) as usize]);
+                    buf.push_str(toks2[(blk / tk) as usize]);
+                    let mut x = i;
+                    for _ in 0..len {
+                        buf.push_str(toks2[(x % tk) as usize]);
+                        x /= tk;
+                    }
+                    check_uri(buf.as_bytes(), t);
+                }
+            }
+            if blk == 0 {
+                t.sample(json!({"token_uri_block": "all token sequences starting with http://http://"}));
+            }
+        },
+        |blk| format!("token URI block {}", blk),
+    );
+    t5.record(&mut part, "token-level-uris");
     part.set("rule", json!("all strings up to the bound over the stated alphabets, distinct by construction; non-trivial = the reference does not return the default answer (token accepted / abs path non-empty)"));
     part.set("exhaustive", json!(true));
     vec![part]
